@@ -114,6 +114,29 @@ CHECKS["C06"] = {
     "level_note": "strings outside the mutation families are not covered",
 }
 
+CHECKS["C09"] = {
+    "title": "the integer sampler is total and follows D_{Z,mu,sigma'}",
+    "rule": "Four monitors. (1) blocks, exact: base_sampler(u) == #{i: u < RCDT[i]} (table transcribed from PQClean) at every "
+            "threshold +-2, 0, 2^72-1, all 2^k and 2^k-1, and seeded random u (half of them with random leading zeros so small "
+            "entries are approached); approx_exp == reference ApproxExp on [0,ln2]x(0,1] incl. corners; ber_exp == reference "
+            "lazy BerExp on random inputs, on ties of the first k<7 bytes followed by +-1, and on exact 7-byte ties (must not "
+            "panic; result must be producible by some eighth byte). (2) totality: sampler_z under all-zero, all-0xFF, counter, "
+            "constructed seven-byte-tie, zero-Bernoulli and largest-z0 prefixes followed by honest bytes, over 12 centres x 7 "
+            "(sigma', sigma_min) pairs; panic monitor and a draw-count progress bound (10^4 honest iterations). (3) distribution: "
+            "9 centres x 5 widths, N seeded samples each: chi-square against the exact pmf (cells merged to expectation >= 10, "
+            "alarm at p < 1e-9), z-tests of mean and second moment (alarm at |z| > 6), and a same-randomness comparison with the "
+            "specification's SamplerZ that is used as an oracle only if >= 99% of calls agree (i.e. the implementation consumes "
+            "randomness in the same pattern). (4) in situ: every sampler call made by ffsampling during real signing (hook event) "
+            "must satisfy sigma_min <= sigma' <= 1.8205; pooled first and second moments of (z-mu)/sigma'. Blocks and totality run "
+            "on the release and the overflow-checked build. distinct_nontrivial = distinct threshold points + 7-byte ties + "
+            "(config, stream, iteration) cells + distribution configs + instrumented signatures.",
+    "assumptions": ["RCDT and ApproxExp constants transcribed from PQClean (sanity-checked against the f64 half-Gaussian on every run)", "statistical resolution about 1e-3 relative on cells of mass >= 1e-5 in the quick tier"],
+    "legs": [{"name": "blocks", "profiles": BOTH}, {"name": "totality", "profiles": BOTH}, {"name": "distribution"}, {"name": "in-situ"}],
+    "technique": "exact differential monitors for the building blocks, panic + logical-step progress monitor under hostile byte streams, goodness-of-fit monitors (chi-square, moments) with alarm thresholds below 1e-6 family-wise, in-situ precondition monitor at a hook",
+    "level_text": "Blocks are compared exactly on boundary and random inputs; the distribution is decided statistically with stated resolution; tails are covered only by the exact block monitors.",
+    "level_note": "deviations below the statistical resolution and isochrony are not observable",
+}
+
 NOT_APPLICABLE = {}
 
 ENGINES = [
